@@ -104,6 +104,8 @@ def evaluate(case):
                     runs = [s.dispatcher((o, 0), meth, G.copy(), a1, a0, nf, it, (10, 0)) for it in ITERS]
                 elif meth in (M.PERTURBATIVE_EXACT, M.PERTURBATIVE_EXPANDED):
                     runs = [s.dispatcher((o, 0), meth, G.copy(), a1, a0, nf, 1, (mo, 0)) for mo in MAXORD]
+                    # the number of steps must not matter beyond the same accuracy
+                    extra = np.array(s.dispatcher((o, 0), meth, G.copy(), a1, a0, nf, 4, (MAXORD[-1], 0)), dtype=np.complex128)
                 else:
                     runs = [s.dispatcher((o, 0), meth, G.copy(), a1, a0, nf, 1, (10, 0))]
                 runs = [np.array(r, dtype=np.complex128) for r in runs]
@@ -133,6 +135,12 @@ def evaluate(case):
                 bound = (10.0 / 3.0 if meth.name.startswith("ITERATE") else 10.0) * change + TOL_ROUND
                 key = "max_ratio_iterate" if meth.name.startswith("ITERATE") else "max_ratio_perturbative"
                 mx[key] = max(mx[key], err[-1] / bound)
+                if meth.name.startswith("PERTURBATIVE"):
+                    err_x = float(np.max(np.abs(np.array([extra[0, 0], extra[1, 1]]) - nsv) / np.abs(nsv)))
+                    offx = max(abs(extra[0, 1]), abs(extra[1, 0]))
+                    mx[key] = max(mx[key], err_x / bound)
+                    if not (err_x <= bound and offx <= TOL_OFFDIAG):
+                        res.fail(sig + "/iterations=4", f"{where}: with 4 steps and ev_op_max_order={MAXORD[-1]} distance to non-singlet {err_x:.3e} (bound {bound:.3e}), off-diagonal {offx:.3e}")
                 if not err[-1] <= bound:
                     res.fail(
                         sig,
@@ -170,7 +178,7 @@ def run(ctx):
     ctx.rule = (
         f"complete product: 8 methods x order 2-4 x nf 3-6 x 4 diagonal complex towers (entries distinct at every order; one "
         f"with gamma_0 entry 0) x all ordered pairs a0 != a1 of {la}; iterate methods at 30/60/120 iterations, perturbative "
-        "methods at ev_op_max_order 10/20/40; a case = (order, nf, tower, a0) with all its a1 and methods; non-trivial = all"
+        "methods at ev_op_max_order 10/20/40 with 1 step and at 40 with 4 steps; a case = (order, nf, tower, a0) with all its a1 and methods; non-trivial = all"
     )
     ctx.assumptions += [
         "correspondence of strategies as documented in DGLAP.rst: singlet ordered-truncated uses the truncated expansion (so it "
